@@ -277,6 +277,9 @@ def ev(e, env):
         return ev_quant(e, env)
     if t == "fundef":
         return Fn(list(e[1]), e[2], list(env))
+    if t == "after_external":
+        # [function(params) external {...}, expr][2]: the value of expr; the parameters of the external function are not in its scope
+        return ev(e[2], env)
     if t == "call":
         f = ev(e[1], env)
         args = [ev(a, env) for a in e[2]]
@@ -554,6 +557,8 @@ def render(e):
         return "%s %s satisfies %s" % (t, ", ".join("%s in %s" % (n, w(d)) for n, d in e[1]), w(e[2]))
     if t == "fundef":
         return "function(%s) %s" % (", ".join(e[1]), w(e[2]))
+    if t == "after_external":
+        return '[function(%s) external {java: {class: "java.lang.Math", method signature: "abs(double)"}}, %s][2]' % (", ".join(e[1]), render(e[2]))
     if t == "call":
         f = render(e[1]) if e[1][0] == "name" else "(" + render(e[1]) + ")"
         return "%s(%s)" % (f, ", ".join(render(a) for a in e[2]))
